@@ -504,17 +504,28 @@ func (ctx *RenderContext) CallFunction(name string, args []interface{}) (interfa
 
 	// Check if it's a macro
 	if macro, ok := ctx.GetMacro(name); ok {
-		// Return a callable function
-		return func(w io.Writer) error {
+		// The value of the call is what the macro renders
+		return renderMacroCall(func(w io.Writer) error {
 			macroNode, ok := macro.(*MacroNode)
 			if !ok {
 				return fmt.Errorf("'%s' is not a macro", name)
 			}
 			return macroNode.CallMacro(w, ctx, args...)
-		}, nil
+		})
 	}
 
 	return nil, fmt.Errorf("function '%s' not found", name)
+}
+
+// renderMacroCall runs a macro call and returns the text it renders. A call is an expression like
+// any other: a filter, an operator or an argument list that receives it must see that text, not
+// a function value waiting to be printed.
+func renderMacroCall(call func(io.Writer) error) (interface{}, error) {
+	var sb strings.Builder
+	if err := call(&sb); err != nil {
+		return nil, err
+	}
+	return sb.String(), nil
 }
 
 // callRangeFunction implements the range function
@@ -898,10 +909,10 @@ func (ctx *RenderContext) EvaluateExpression(node Node) (interface{}, error) {
 
 					// If the macro is a MacroNode, return a callable to render it
 					if macroNode, ok := macroObj.(*MacroNode); ok {
-						// Return a callable that can be rendered later
-						return func(w io.Writer) error {
+						// The value of the call is what the macro renders
+						return renderMacroCall(func(w io.Writer) error {
 							return macroNode.CallMacro(w, ctx, args...)
-						}, nil
+						})
 					}
 				}
 			}
@@ -932,14 +943,14 @@ func (ctx *RenderContext) EvaluateExpression(node Node) (interface{}, error) {
 				args[i] = val
 			}
 
-			// Return a callable that can be rendered later
-			return func(w io.Writer) error {
+			// The value of the call is what the macro renders
+			return renderMacroCall(func(w io.Writer) error {
 				macroNode, ok := macro.(*MacroNode)
 				if !ok {
 					return fmt.Errorf("'%s' is not a macro", n.name)
 				}
 				return macroNode.CallMacro(w, ctx, args...)
-			}, nil
+			})
 		}
 
 		// Otherwise, it's a regular function call
